@@ -322,8 +322,10 @@ func judgeTable(c *CheckCtx, s *Slot, tc *tableCase) *Violation {
 		}
 		off := strings.Count(src, "\n")
 		v := exploreThenJudge(c, s, func(rn Runner) *Violation {
-			o1, ok1 := relRun(c, rn, srcExec(tc.Probe))
-			o2, ok2 := relRun(c, rn, srcExec(src+tc.Probe))
+			e1, e2 := srcExec(tc.Probe), srcExec(src+tc.Probe)
+			e1.Config, e2.Config = e.Config, e.Config
+			o1, ok1 := relRun(c, rn, e1)
+			o2, ok2 := relRun(c, rn, e2)
 			if !ok1 || !ok2 {
 				return nil
 			}
@@ -361,7 +363,7 @@ func init() {
 				c.Inconclusive("the builtin-table invariant needs the verif-tagged build, which failed")
 				return
 			}
-			c.rule = "state-invariant hook at a quiescent point: after the check round of every in-process analysis the canonical rendering of every TFrame entry that existed after loading .ti-config (methods, their parameters, return types, flags, overloads, block parameters; the volatile beforeEvaluateCode excluded) is compared with its rendering after init. Programs: corpus programs that do not reopen configured classes, generated programs, and sweep programs calling configured methods on fresh, variable and union receivers with fitting and non-fitting arguments, blocks and keywords. A share also runs the black-box relation out(P;Q)|Q == out(Q) for probe blocks Q of builtin calls on fresh literals. distinct_nontrivial = distinct programs with output"
+			c.rule = "state-invariant hook at a quiescent point: after the check round of every in-process analysis the canonical rendering of every TFrame entry that existed after loading .ti-config (methods, their parameters, return types, flags, overloads, block parameters; the volatile beforeEvaluateCode excluded) is compared with its rendering after init. Programs: corpus programs that do not reopen configured classes, generated programs, and sweep programs calling configured methods on fresh, variable and union receivers with fitting and non-fitting arguments, blocks and keywords; subclasses of configured classes that redeclare a method with the same keyword names; generated configurations (keywords in any order and in front of positionals, overloads) whose every method is called and redeclared in a subclass. A share also runs the black-box relation out(P;Q)|Q == out(Q) for probe blocks Q of builtin calls on fresh literals. distinct_nontrivial = distinct programs with output"
 			c.assumptions = []string{"the table rendering is produced by a verif-tagged hook inside the analyser process (the observation point the property names)", "programs that reopen a configured class are excluded, as the property states"}
 			model, err := BuildModel(ShippedConfig())
 			if err != nil {
@@ -396,6 +398,76 @@ func init() {
 				tc := &tableCase{Exec: srcExec(sweepProgram(r, model, 6+r.Intn(10))), Origin: "sweep"}
 				if r.Chance(1, 4) {
 					tc.Probe = probeBlock(r, model)
+				}
+				jobs = append(jobs, tc)
+			}
+			// a subclass of a configured class that redeclares one of its methods,
+			// with the same keyword names and defaults of another class
+			for _, src := range []string{
+				"class Zwkid < Test\n  def self.keyword_json_test(name: \"anonymous\")\n    name\n  end\nend\nZwkid.keyword_json_test\nZwkid.keyword_json_test(name: \"x\")\n",
+				"class Zwkid < Test\n  def self.keyword_json_test2(name: 2.5)\n    name\n  end\nend\nZwkid.keyword_json_test2(name: :s)\n",
+				"class Zwdir < Dir\n  def self.glob(pattern, flags = \"f\", base: 5)\n    base\n  end\nend\nZwdir.glob(\"*\")\nZwdir.glob(\"*\", \"g\", base: 7)\n",
+			} {
+				for q := 0; q < c.N(2, 6); q++ {
+					jobs = append(jobs, &tableCase{Exec: srcExec(src), Origin: "subclass-redeclares-keywords", Probe: "zq1 = Test.keyword_json_test(name: 1)\ndbtp zq1\nTest.keyword_json_test(name: \"x\")\nTest.keyword_json_test2(name: \"s\")\nzq2 = Dir.glob(\"*\", 1, base: \"d\")\ndbtp zq2\nDir.glob(\"*\", 1, base: 5)\n"})
+				}
+			}
+			// generated configurations: keywords declared in any order and before
+			// positionals, overloads, unions; every method called, then redeclared in
+			// a subclass with the same keyword names
+			for k := 0; k < c.N(12, 200); k++ {
+				classes := genClasses(r, 2+r.Intn(3), "")
+				extra := map[string]string{}
+				for _, cl := range classes {
+					if r.Bool() {
+						// a keyword in front of the positionals of one method
+						for _, m := range cl.Methods {
+							if len(m.Params) >= 2 && m.Params[len(m.Params)-1].Key != "" && m.Params[0].Key == "" {
+								m.Params[0], m.Params[len(m.Params)-1] = m.Params[len(m.Params)-1], m.Params[0]
+								break
+							}
+						}
+					}
+					extra["zz_"+strings.ToLower(cl.Name)+".json"] = cl.toJSON(Notation{}, r, nil)
+				}
+				cfg := cfgWith(extra)
+				src := callProgram(r, classes)
+				var sb strings.Builder
+				for _, cl := range classes {
+					for _, m := range cl.Methods {
+						hasKw := false
+						var ps []string
+						for i, p := range m.Params {
+							switch {
+							case p.Key != "":
+								hasKw = true
+								ps = append(ps, p.Key+": "+Pick(r, []string{"\"zz\"", "2.5", ":zz", "[1]"}))
+							case p.Rest:
+								ps = append(ps, fmt.Sprintf("*r%d", i))
+							default:
+								ps = append(ps, fmt.Sprintf("p%d = nil", i))
+							}
+						}
+						if !hasKw || m.Name == "new" {
+							continue
+						}
+						self := ""
+						recv := "Zw" + cl.Name + ".new."
+						if m.Static {
+							self = "self."
+							recv = "Zw" + cl.Name + "."
+						}
+						fmt.Fprintf(&sb, "class Zw%s < %s\n  def %s%s(%s)\n    1\n  end\nend\n%s%s\n", cl.Name, cl.Name, self, m.Name, strings.Join(ps, ", "), recv, m.Name)
+						break
+					}
+				}
+				e := srcExec(src + sb.String())
+				e.Config = cfg
+				tc := &tableCase{Exec: e, Origin: "generated-config"}
+				if r.Bool() {
+					// (its own variable names: a failing assignment in the probe must not
+					// find the type a variable of that name got in the program)
+					tc.Probe = regexp.MustCompile(`\b([orhu])(\d)`).ReplaceAllString(callProgram(r, classes), "zq$1$2")
 				}
 				jobs = append(jobs, tc)
 			}
